@@ -742,6 +742,8 @@ func (e *endpoint) Connect(addr tcpip.FullAddress) *tcpip.Error {
 
 	// 赋值UDP端的属性
 	e.id = id
+	// Drop the reference held by the route of a previous Connect, if any.
+	e.route.Release()
 	e.route = r.Clone()
 	e.dstPort = addr.Port
 	e.regNICID = nicid
